@@ -103,7 +103,7 @@ class Executor:
                 CTX.counters["runs_with_builtin_set"] += 1
             else:
                 seams.inject_simset()
-        with World(budget=self.swarm.get("step_budget", 8_000_000), dot_root=bool(self.swarm.get("dot_root"))) as w:
+        with World(budget=self.swarm.get("step_budget", 3_000_000), dot_root=bool(self.swarm.get("dot_root"))) as w:
             self.world = w
             prev_state = None
             for idx, op in enumerate(self.ops):
